@@ -331,8 +331,9 @@ def dealiased(fn):
         init = [c for c in d.get('inner', []) if c.get('kind') not in ('FullComment',)]
         if not init or init[-1].get('kind') == 'InitListExpr':
             continue
-        if any(x.get('kind') == 'CallExpr' for x in walk(init[-1])):
-            continue        # a value computed by a call is not a name for a place
+        if any(x.get('kind') == 'CallExpr' or (x.get('kind') == 'UnaryOperator' and x.get('opcode') in ('++', '--')) or x.get('kind') == 'CompoundAssignOperator'
+               or (x.get('kind') == 'BinaryOperator' and x.get('opcode') == '=') for x in walk(init[-1])):
+            continue        # a value computed by a call, or an initialiser with a side effect, is not a name for a place
         pmap[d['id']] = _subst(init[-1], pmap)
     if not pmap:
         return fn
